@@ -36,16 +36,18 @@ declarations:
 - decl: void f7(double x)
 - decl: int f13(int a = 3, int b = 4)
 - decl: int f14(int a)
-- decl: int f14(const std::string & s)
-- decl: int f14(int a, const std::string & s)
 - decl: int f17(double x, int a = 7, bool b = true)
+- decl: int f14(const std::string & s)
 - decl: bool f18(bool flag)
+- decl: int f14(int a, const std::string & s)
 - decl: int f19(double x, int a, int off = 0, int stride = 1)
 - decl: class Cls
   declarations:
   - decl: Cls(int v)
   - decl: ~Cls()
+  - decl: int add(int a)
   - decl: int get() const
+  - decl: int add(const std::string & s)
   - decl: void set(int v)
   - decl: int scale(int k = 2)
   - decl: int mix(int a, double b)
@@ -66,7 +68,7 @@ int f14(int a, const std::string &s);
 int f17(double x, int a = 7, bool b = true);
 bool f18(bool flag);
 int f19(double x, int a, int off = 0, int stride = 1);
-class Cls { public: int value; explicit Cls(int v); ~Cls(); int get() const; void set(int v); int scale(int k = 2); int mix(int a, double b); };
+class Cls { public: int value; explicit Cls(int v); ~Cls(); int add(int a); int add(const std::string &s); int get() const; void set(int v); int scale(int k = 2); int mix(int a, double b); };
 #endif
 """
 
@@ -88,6 +90,8 @@ bool f18(bool flag) { IN("f18(bool)"); vt_bool(flag); vt_end(); bool rv = !flag;
 int f19(double x, int a, int off, int stride) { IN("f19(double,int,int,int)"); vt_dbl(x); vt_int(a); vt_int(off); vt_int(stride); vt_end(); int rv = (int)(x * 4) + a * 10 + off * 100 + stride * 1000; OUT("f19(double,int,int,int)"); vt_int(rv); vt_end(); return rv; }
 Cls::Cls(int v) : value(v) { IN("Cls::Cls(int)"); vt_int(v); vt_end(); OUT("Cls::Cls(int)"); vt_obj(this); vt_end(); }
 Cls::~Cls() { }
+int Cls::add(int a) { IN("Cls::add(int)"); vt_obj(this); vt_int(a); vt_end(); int rv = value + a; OUT("Cls::add(int)"); vt_int(rv); vt_end(); return rv; }
+int Cls::add(const std::string &s) { IN("Cls::add(const std::string&)"); vt_obj(this); vt_str(s.c_str(), (long)s.size()); vt_end(); int rv = value + 100 * (int)s.size(); OUT("Cls::add(const std::string&)"); vt_int(rv); vt_end(); return rv; }
 int Cls::get() const { IN("Cls::get()"); vt_obj(this); vt_end(); int rv = value; OUT("Cls::get()"); vt_int(rv); vt_end(); return rv; }
 void Cls::set(int v) { IN("Cls::set(int)"); vt_obj(this); vt_int(v); vt_end(); value = v; OUT("Cls::set(int)"); vt_end(); }
 int Cls::scale(int k) { IN("Cls::scale(int)"); vt_obj(this); vt_int(k); vt_end(); int rv = value * k; OUT("Cls::scale(int)"); vt_int(rv); vt_end(); return rv; }
@@ -196,6 +200,7 @@ FUNCS = [
     ("f18", "module", 0, [("f18(bool)", ["bool"], "bool", 0)]),
     ("f19", "module", 0, [("f19(double,int,int,int)", ["dbl", "int", "int", "int"], "int", 2)]),
     ("Cls", "module", 0, [("Cls::Cls(int)", ["int"], "obj", 0)]),
+    ("add", "Cls.metatable", 1, [("Cls::add(int)", ["int"], "int", 0), ("Cls::add(const std::string&)", ["str"], "int", 0)]),
     ("get", "Cls.metatable", 1, [("Cls::get()", [], "int", 0)]),
     ("set", "Cls.metatable", 1, [("Cls::set(int)", ["int"], "none", 0)]),
     ("scale", "Cls.metatable", 1, [("Cls::scale(int)", ["int"], "int", 1)]),
